@@ -634,7 +634,7 @@ def contract_coll(case):
 
 # ------------------------------------------------------------------------------------------------ trees
 TREES = {
-    "named5": "((a:1,b:2)ab:3,(c:4,d:5)cd:6,e:0.5)root;",
+    "named5": "((a:1,b:2)ab:3,(c:4,d:5)cd:6,e:0.5);",
     "anon4": "((a:1,b:2):3,(c:4,d:5):6);",
     "nolen4": "((a,b),(c,d));",
     "floats3": "(a:1e-07,b:123456789.123,c:0);",
@@ -726,6 +726,8 @@ def tree_view(t, newick=True, blur=False):
         "tips": obs(lambda: t.get_tip_names()),
         "newick": obs(lambda: t.get_newick(with_distances=True, with_node_names=not blur)) if newick else None,
         "nodes": obs(nodes),
+        # the text written by write() / str(): names the tree was given are spelled, automatic ones are not
+        "newick_default": obs(lambda: t.get_newick(with_distances=True)) if newick and not blur else None,
     }
 
 
